@@ -4,6 +4,7 @@ import NxProofs.KeepAlive
 import NxProofs.Settle
 import NxProofs.Gating
 import NxProps.C04
+import NxProofs.C02Ports
 /-!
 # C02 — no PRUDP operation hangs: silence and closure release every waiter
 
@@ -205,6 +206,43 @@ example :
     let D := 0 + c.pingTimeout + (c.resendLimit + 1) * c.resendTimeout
     (Conn.advance C04.toyEnv 64 D c).1.Settled D ∧ (Conn.advance C04.toyEnv 64 D c).1.state = STATE_DISCONNECTED := by
   simp only []
+  decide
+
+/-! ## the same address can connect again: the local ports of a long-lived transport (`PRUDPPortTable`)
+
+`PRUDPClientTransport.connect` / `PRUDPServerTransport.serve` run inside `with self.ports.bind(...)`. Model:
+`NxModel/Prudp/C02Ports.lean`; tie: harness/c02_ports_tie.py (generated obligations: the real table and the model agree on sequences of
+blocks left normally / by an exception / by cancellation) and harness/c02_reuse.py (20..40 real connections on one transport). -/
+
+/-- however the connections of ONE transport end (returned, raised, cancelled — e.g. failed handshake, EndOfStream or an
+    application exception leaving the block), any number of them one after the other leaves no local port bound, and every
+    one of them is given the same local port a fresh transport would give: the port table never runs out -/
+theorem transport_reuse (t : Prudp.Ports.Table) (sessions : List (Option Nat × Nat × Prudp.Ports.Exit)) :
+    (t.blocks sessions).1 = t ∧
+    (t.blocks sessions).2 = sessions.map (fun b => (t.block b.1 b.2.1 b.2.2).2) :=
+  ⟨Prudp.Ports.blocks_restore t sessions, Prudp.Ports.blocks_yields t sessions⟩
+
+/-- on a transport with nothing bound and `n+1` ports, the k-th connection — after any history of endings — gets port `n` -/
+theorem transport_reuse_fresh (n type : Nat) (hows : List Prudp.Ports.Exit) :
+    ((Prudp.Ports.Table.mk (n + 1) []).blocks (hows.map (fun h => (none, type, h)))).2 = hows.map (fun _ => some (Prudp.Ports.key n type &&& 0xFF)) := by
+  rw [Prudp.Ports.blocks_yields]
+  simp [List.map_map, Function.comp_def, Prudp.Ports.Table.block, Prudp.Ports.Table.enter, Prudp.Ports.allocate_empty,
+        bind, Except.bind, pure, Except.pure]
+
+/-- a `transport.serve(handler, port, type)` block left in any way allows the same virtual port to be served again -/
+theorem serve_again (t : Prudp.Ports.Table) (port type : Nat) (how how' : Prudp.Ports.Exit) :
+    ((t.block (some port) type how).1.block (some port) type how').2 = (t.block (some port) type how).2 := by
+  rw [Prudp.Ports.block_restores]
+  exact Prudp.Ports.block_yield_indep t (some port) type how' how
+
+/-! non-vacuity: 40 connections on a UDP transport (16 ports) all ending abnormally: each gets port 15, nothing stays bound -/
+example : ((Prudp.Ports.Table.mk 16 []).blocks (List.replicate 40 (none, 10, .raised))) = (Prudp.Ports.Table.mk 16 [], List.replicate 40 (some 15)) := by
+  decide
+
+/-- counterexample of the defective variant (the key released only on a normal return): after 16 abnormal endings a UDP
+    transport (16 ports) cannot connect any more -/
+theorem leaky_bind_counterexample :
+    ((Prudp.Ports.Table.mk 16 []).blocksLeaky (List.replicate 16 (none, 10, .raised) ++ [(none, 10, .returned)])).2.getLast? = some none := by
   decide
 
 end Nx.C02
